@@ -20,14 +20,18 @@ Chunk == 25
 Init == i \in {1 + k * Chunk : k \in 0..((Len(Rec) - 1) \div Chunk)}
 Next == i % Chunk # 0 /\ i < Len(Rec) /\ i' = i + 1
 
+\* a decimal literal with more significant digits than the type holds is rounded; the rounded value is only
+\* prescribed up to one unit of its last place (DESIGN 4.4), so such texts are compared on accept/reject only
+Inexact(toks) == \E j \in 1..Len(toks) : toks[j].c = "DECIMAL" /\ LET d == DenoteDecimal(toks[j].s) IN d.ok /\ ~d.exact
 Accepted ==
   LET r == Rec[i]
       l == Lex(r.text)
       e == IF l.ok THEN Parse(l.toks) ELSE [ok |-> FALSE]
       ru == IF l.ok THEN RuleFromToks(l.toks, r.text) ELSE ParseError
+      loose == l.ok /\ Inexact(l.toks)
   IN /\ "ok" \in DOMAIN r.x                                   \* not a panic
      /\ r.x.ok = e.ok
-     /\ (e.ok => r.x.t = e.t)
+     /\ (e.ok /\ ~loose => r.x.t = e.t)
      /\ r.rule.k = ru.k
-     /\ (ru.k = "ok" => r.rule.name = ru.name /\ r.rule.meta = ru.meta /\ r.rule.expr = ru.expr)
+     /\ (ru.k = "ok" /\ ~loose => r.rule.name = ru.name /\ r.rule.meta = ru.meta /\ r.rule.expr = ru.expr)
 =============================================================================
